@@ -115,6 +115,13 @@ struct ModelLayer {
 fn gen_msg_for(kind: Kind, seed: u64) -> Msg {
     let mut r = Rng::new(seed);
     match kind {
+        // now and then a layer of ~100 KB (many tar blocks, several writes when the transfer is chunked)
+        Kind::Instance if seed % 61 == 0 => {
+            let mut inst = gen_msg::gen_instance(&mut r);
+            let terms: Vec<(Vec<u64>, f64)> = (0..6000u64).map(|i| (vec![i % 50, (i / 50) % 50, i % 7], (1 + r.below(100_000)) as f64 / 7.0)).collect();
+            inst.objective = Some(crate::model::msg::f_poly(crate::model::msg::polynomial(&terms)));
+            Msg::Instance(inst)
+        }
         Kind::Instance => Msg::Instance(gen_msg::gen_instance(&mut r)),
         Kind::Parametric => Msg::Parametric(gen_msg::gen_parametric(&mut r)),
         Kind::Solution => Msg::Solution(gen_msg::gen_state(&mut r)),
@@ -726,6 +733,9 @@ impl Prop for C20 {
                     (a.clone().into_inner(), x.sut(|| builder.add_sample_set(m.clone(), a)))
                 }
             };
+            if l.kind == Kind::Instance && l.msg_seed % 61 == 0 {
+                x.count("probe.big_layer");
+            }
             model.push(ModelLayer { kind: l.kind, msg, ann: ann_map, spec: l.ann.clone(), now_window: win });
             if !judge(x, op, &format!("add_{:?}", l.kind), r) {
                 all_ok = false;
@@ -964,6 +974,6 @@ impl Prop for C20 {
         vec!["libc read/write/open/close (fault plan applied, then the real call)", "wall clock (simulated, jumped by the schedule)", "OS randomness (seeded)"]
     }
     fn required_probes(&self, _t: Tier) -> Vec<&'static str> {
-        vec!["fault.enospc", "fault.eio_read", "fault.short_write", "fault.eintr_write", "probe.foreign_image_case", "probe.archive_verified", "probe.dir_route_verified", "probe.second_builder_refused", "probe.builder_err_after_hard_fault", "probe.read_err_after_hard_fault", "sys.clock_gettime", "sys.write", "sys.read"]
+        vec!["fault.enospc", "fault.eio_read", "fault.short_write", "fault.eintr_write", "probe.foreign_image_case", "probe.archive_verified", "probe.dir_route_verified", "probe.second_builder_refused", "probe.big_layer", "probe.builder_err_after_hard_fault", "probe.read_err_after_hard_fault", "sys.clock_gettime", "sys.write", "sys.read"]
     }
 }
